@@ -21,7 +21,8 @@ CHECKS['C06'] = dict(
     text='Deductive proof (CBMC contracts, bit-precise IEEE doubles) on the extracted text of EngineControl::computeTimeLimit, ponderHit, the single-legal-move block of startThread (fragment) and Search::timeLimit: '
          'for every clock 1..10^7, increment 0..10^5, movestogo 0..100, movetime 1..10^5, side to move, Ponder on/off and every declared value of BufferTime/TimeMaxRemainingMoves/MaxTimeUsage/TimePonderHitRate: '
          'no signed overflow, no NaN/inf, float->int conversions in range, movetime => soft==hard==movetime, clock => 1 <= soft <= hard <= clock - min(buffer, 0.9 clock); the single-move clamp and ponderhit keep 1 <= soft <= hard <= previous hard and deliver exactly those limits to the search.',
-    note=TRUST + 'quick tier proves the ponder-on case at the default tunable values, thorough with all tunables symbolic (about 3 min). Not decided: wall-clock delivery (polling interval, stop path, threads, MaxNPS) - needs execution.',
+    note=TRUST + 'Also under contract: the time/node test of the periodic stop test Search::shouldStop and the time test between iterations of iterativeDeepening (fragments): once the hard limit is reached both say stop, hardFactor stays in [0.3, 3.5], an infinite search is not stopped by them. '
+         'quick tier proves the ponder-on case at the default tunable values, thorough with all tunables symbolic (about 3 min). Not decided: wall-clock delivery (polling interval, stop path, threads, MaxNPS) - needs execution.',
     technique='CBMC function contracts on extracted real code (dfcc), floating point encoded bit-precisely, SAT back end',
     design='4.4')
 CHECKS['C02'] = dict(
@@ -45,9 +46,11 @@ CHECKS['C11'] = dict(
 CHECKS['C12'] = dict(
     text='Partial: installation safety only. Deductive proof (CBMC contracts) of the class invariant of TranspositionTable w.r.t. a resident on-demand tablebase on the extracted text of updateTB and the head of clear(): '
          'generator installed => generation completed and usedSize == tableSize - 5MB/16; not installed => usedSize == tableSize; every return path; updateTB returns true only with a complete table; '
-         'TB byte region disjoint from hash entries (lemma); setUsedSize loop contract.',
+         'TB byte region disjoint from hash entries (lemma); setUsedSize loop contract. Table index (class TBIndex, up to 5 men): bit layout, getSquare/setSquare, the three mirror operations act on every piece except the white king, '
+         'setSquare of the white king maps it into the a1-d1-d4 triangle and applies the same symmetry to every other piece, captured pieces follow the black king, static tables symType/kingMap/kingMapInverse, '
+         'sortPieces (multiset of squares per piece type preserved, equal neighbours ascending); thorough: canonize gives diagonal mirror images the same index. PositionValue encoding and probe score conversion.',
     note=TRUST + 'TBGenerator::generate/probeDTM are stubs with assumed contracts (generate reports completion through its return value). NOT decided: exactness of the generated distances (retrograde analysis over millions of entries), '
-         'indexing/symmetry lemmas of TBIndex, probe score conversion - none of this is claimed.',
+         'move / un-move generation on indices (TBPosition, lambdas) - the core of the property is therefore NOT decided by this check.',
     technique='CBMC function contracts (class invariant) on extracted real code (dfcc), SAT back end',
     design='4.8')
 CHECKS['C20'] = dict(
@@ -95,10 +98,11 @@ CHECKS['C18'] = dict(
 CHECKS['C07'] = dict(
     text='Partial: incremental first-layer state and feature-index symmetry only. Deductive proof (CBMC contracts) on the extracted text of nneval.cpp/.hpp: getIndex in range and invariant under colour swap and left-right mirroring; '
          'the per-perspective body of NNEvaluator::setPiece (fragment, complete 5x5 case split on the queue lengths): accumulator + queued additions - queued subtractions stays equal to the from-scratch value of the changed board '
-         '(ghost model field, arbitrary weights as an uninterpreted function), including the overflow path that invalidates the state; FirstLayerState::clear.',
+         '(ghost model field, arbitrary weights as an uninterpreted function), including the overflow path that invalidates the state; the first loop of the lazy refresh computeL1WB (fragment): the queue is empty afterwards in every case and, '
+         'with an unchanged king square, the accumulator has absorbed it; FirstLayerState::clear.',
     note=TRUST + 'BOUNDED stand-ins (reported separately in the evidence, not counted as proved): pushState/popState/forceFullEval on a stack of 8 levels instead of 400 (the 38 KB stack object is intractable). '
          'The composition "setPiece = the fragment for both perspectives" rests on the pinned loop header (paper argument; the mechanical composition group hit a CBMC defect, DESIGN 13.8). '
-         'One generic 16-bit lane stands for the 256 lanes (A-LANE). Assumed: computeL1WB leaves both perspectives consistent. '
+         'One generic 16-bit lane stands for the 256 lanes (A-LANE). Assumed: addSubWeights adds/subtracts the queued rows; the rebuild part of computeL1WB leaves a perspective consistent. '
          'NOT decided: computeL1WB/computeL1Out/layers 2-4/eval (value == from-scratch evaluation), SIMD variants, endGameEval symmetry, evaluation caches, whole-evaluation symmetry.',
     technique='CBMC function contracts on extracted real code and fragments (dfcc), ghost model field, uninterpreted weight table, complete case split, SAT back end',
     design='4.5, 13.8')
